@@ -15,6 +15,7 @@
      awaits_ok   the await discipline: a call of an `async def` callee is always directly awaited
                  and nothing else is ever awaited (erasure makes a *missing* await invisible, so this
                  is checked separately, on the un-erased async trees)
+     temps_scoped  the temporaries R1/R2 eliminate occur nowhere else in their method
      differing / constructor_variants_ok / one-sided lists / import agreement: table-level checks
 
    Encoding of a Python AST node of class K with _fields f1..fk:  Node T_K [enc f1; ...; enc fk]
@@ -264,14 +265,16 @@ Definition as_iscoro_test (t : tree) : option N :=
 
    R1 (temporary for a test)    v = E ; if v <ops> <constants>: B else: O ; rest
                            ==>  if E <ops> <constants>: B else: O ; rest
-        provided v occurs nowhere else (not in E, B, O, rest).  E is evaluated once, first, in both
+        provided v occurs nowhere else in this list (not in E, B, O, rest) — and nowhere else in the
+        METHOD, which is checked globally (temps_scoped below).  E is evaluated once, first, in both
         forms.  (async: `result = await self.adapter.add_policy(..)` / `if result is False:`.)
 
    R2 (bound watcher callback)  v = getattr(P, "name", None) ; if callable(v): THEN else: O ; rest
                            ==>  if callable(getattr(P, "name", None)): THEN[v := P.name] else: O ; rest
         provided P is a path (x.a.b: re-evaluating it is attribute lookup only), v does not occur in
-        P, O, rest, and every occurrence of v in THEN is a read.  Assumes what the sync code already
-        assumes: looking the attribute up twice yields the same callable. *)
+        P, O, rest (nor anywhere else in the method: temps_scoped), and every occurrence of v in THEN
+        is a read.  Assumes what the sync code already assumes: looking the attribute up twice yields
+        the same callable. *)
 Definition r3 (t : tree) : option (list tree) :=
   match t with
   | Node tif [test; Node ts1 s1; Node ts2 s2] =>
@@ -346,6 +349,61 @@ Fixpoint norm (t : tree) : tree :=
   end.
 
 Definition canon (t : tree) : tree := norm (erase t).
+
+(* ---------- scoping of the temporaries that R1 / R2 eliminate ----------
+   R1 and R2 delete the binding of a local v.  That is only meaning-preserving when v occurs NOWHERE
+   else in the method (a later `return v`, a second assignment, ... would observe the difference), which
+   a rewrite of one statement list cannot see.  So it is checked globally, as a post-condition: every
+   variable eliminated while normalising a method must not occur AS A VARIABLE anywhere in the
+   normalised method.  (Attribute names and keyword-argument names are not variables; R2 only
+   introduces attribute names.) *)
+Fixpoint count_var (v : N) (t : tree) : nat :=
+  match t with
+  | Node tag kids =>
+      if tag =? T_Attribute then match kids with o :: _ => count_var v o | [] => O end
+      else if tag =? T_keyword then match kids with _ :: r => list_sum (map (count_var v) r) | [] => O end
+      else list_sum (map (count_var v) kids)
+  | Ident k => if k =? v then 1%nat else O
+  | _ => O
+  end.
+
+Definition assign_target (x : tree) : option N :=
+  match x with Node _ [Node _ [Node _ [Ident v; _]]; _] => Some v | _ => None end.
+Definition opt_cons (o : option N) (l : list N) : list N := match o with Some v => v :: l | None => l end.
+
+(* the variables eliminated by rw_seq l (same traversal as rw_seq) *)
+Fixpoint rw_seq_vars (l : list tree) : list N :=
+  match l with
+  | [] => []
+  | x :: rest =>
+      let rest' := rw_seq rest in
+      let vs := rw_seq_vars rest in
+      match r3 x with
+      | Some _ => vs
+      | None =>
+          match rest' with
+          | y :: rest'' =>
+              match r1 x y rest'' with
+              | Some _ => opt_cons (assign_target x) vs
+              | None => match r2 x y rest'' with
+                        | Some _ => opt_cons (assign_target x) vs
+                        | None => vs
+                        end
+              end
+          | [] => vs
+          end
+      end
+  end.
+
+Fixpoint norm_vars (t : tree) : list N :=
+  match t with
+  | Node tag kids => flat_map norm_vars kids ++ (if tag =? T_seq then rw_seq_vars (map norm kids) else [])
+  | _ => []
+  end.
+
+Definition temps_scoped (t : tree) : bool :=
+  forallb (fun v => Nat.eqb (count_var v (norm t)) O) (norm_vars t).
+
 
 (* ---------- the await discipline (on the UN-erased async trees) ----------
    selfs    = identifiers m such that self.m resolves to an `async def` in the async class chain
@@ -429,9 +487,15 @@ Definition await_transparent {A : Type} (alg : N -> list A -> A) : Prop :=
    (operands satisfying P; with the discipline: calls) *)
 Definition await_transparent_on {A : Type} (P : tree -> bool) (s : tree -> A) (alg : N -> list A -> A) : Prop :=
   (forall x, P x = true -> alg T_Await [s x] = s x) /\ async_forms_transparent alg.
-(* the semantics validates the statement-list rewrites R1-R3 *)
+(* the semantics validates the statement-list rewrites R1-R3 on EVERY statement list (a strong, local
+   hypothesis: abstract semantics that do not observe the eliminated temporaries satisfy it) *)
 Definition seq_rewrites_sound {A : Type} (s : tree -> A) (alg : N -> list A -> A) : Prop :=
   forall l, alg T_seq (map s (rw_seq l)) = alg T_seq (map s l).
+(* the weaker, method-level hypothesis the table theorems use: normalisation preserves the meaning of
+   a method WHOSE ELIMINATED TEMPORARIES OCCUR NOWHERE ELSE — the form a store-based semantics can
+   satisfy (the local hypothesis above implies it: norm_sound_from_local) *)
+Definition norm_sound_on_scoped {A : Type} (s : tree -> A) : Prop :=
+  forall m, temps_scoped m = true -> s (norm m) = s m.
 
 (* ---------- the regenerated table and the table-level checks ---------- *)
 Record method : Type := Method {
@@ -446,6 +510,10 @@ Definition twin_eqb (m : method) : bool := tree_eqb (canon (m_async m)) (canon (
 (* names of the shared methods whose canonical trees differ *)
 Definition differing (ms : list method) : list string :=
   map m_name (filter (fun m => negb (twin_eqb m)) ms).
+
+(* shared methods in which a temporary eliminated by R1/R2 still occurs elsewhere (either twin) *)
+Definition unscoped_temps (ms : list method) : list string :=
+  map m_name (filter (fun m => negb (temps_scoped (erase (m_async m)) && temps_scoped (erase (m_sync m)))) ms).
 
 Definition is_async_def (t : tree) : bool :=
   match t with Node tag _ => tag =? T_AsyncFunctionDef | _ => false end.
@@ -534,9 +602,15 @@ Definition constructor_variants_ok (ms : list method) : bool := init_file_ok ms 
    are equal). *)
 Definition imports_t := list (N * list (N * string)).
 Definition all_bindings (imps : imports_t) : list (N * string) := flat_map snd imps.
+(* (iii) the names R2/R3 rely on mean what they say: `inspect` is the stdlib module wherever it is
+   bound, and no module rebinds the builtins callable / getattr *)
+Definition reserved_binding_ok (b : N * string) : bool :=
+  if N.eqb (fst b) K_inspect then String.eqb (snd b) "inspect"
+  else negb (N.eqb (fst b) K_callable || N.eqb (fst b) K_getattr).
 Definition imports_consistent (imps : imports_t) : bool :=
   let all := all_bindings imps in
-  forallb (fun a => forallb (fun b => negb (N.eqb (fst a) (fst b)) || String.eqb (snd a) (snd b)) all) all.
+  forallb (fun a => forallb (fun b => negb (N.eqb (fst a) (fst b)) || String.eqb (snd a) (snd b)) all) all
+  && forallb reserved_binding_ok all.
 Fixpoint module_imports (i : N) (imps : imports_t) : list (N * string) :=
   match imps with [] => [] | (j, l) :: r => if N.eqb i j then l else module_imports i r end.
 Definition binds (x : N) (l : list (N * string)) : bool := existsb (fun b => N.eqb (fst b) x) l.
@@ -580,7 +654,8 @@ Fixpoint val_of_tree (t : tree) : val :=
           2 [async; sync]                 -> () if equal, else [path] to the first difference of the canon trees
           3 t                             -> canon t
           4 [t; selfs; adapters]          -> awaits_ok
-          5 [async; sync]                 -> equal after erase only (no R1-R3)?  (shows what norm contributes) *)
+          5 [async; sync]                 -> equal after erase only (no R1-R3)?  (shows what norm contributes)
+          6 t                             -> temps_scoped (erase t) *)
 Definition oracle_C18 (tag : N) (v : val) : val :=
   match tag, v with
   | 1, VL [a; s] =>
@@ -605,5 +680,7 @@ Definition oracle_C18 (tag : N) (v : val) : val :=
       | Some a', Some s' => vbool (tree_eqb (erase a') (erase s'))
       | _, _ => vbad
       end
+  | 6, t =>
+      match tree_of_val t with Some t' => vbool (temps_scoped (erase t')) | None => vbad end
   | _, _ => vbad
   end.
